@@ -5,7 +5,10 @@ by tools/eval_seeds.py; later files override earlier ones)."""
 import json, os, shutil, glob, sys
 res = {}
 first = {}
-for f in sorted(glob.glob('/tmp/seed/results*.jsonl'), key=os.path.getmtime):
+ORDER = ['results.jsonl', 'results2.jsonl', 'results3.jsonl', 'results4.jsonl', 'results5.jsonl', 'results6.jsonl', 'results7.jsonl', 'results9_final.jsonl',
+         'results_w3.jsonl', 'results_w3b.jsonl', 'results_w3c.jsonl', 'results_w3d.jsonl', 'results_zfinal2.jsonl', 'results_w4_first.jsonl', 'results_w4_zsecond.jsonl']
+# (chronological order of the evaluation runs; results_w3.jsonl was started before results_w3b.jsonl but finished after it)
+for f in sorted(glob.glob('/tmp/seed/results*.jsonl'), key=lambda f: (ORDER.index(os.path.basename(f)) if os.path.basename(f) in ORDER else len(ORDER), os.path.getmtime(f))):
     for l in open(f):
         r = json.loads(l)
         if 'exit' in r:
